@@ -21,48 +21,48 @@ T = {
          "(child direction swapped, fold/scan order reversed, framing identical) of its forward pair and Invert calls the opposite child method; "
          "(iter) the MAF sequential inverse and the BNAF/bisection inverter have the required shape and take -forward log-det at the computed x; "
          "(bin) the spline bin index stays inside the padded knot tables and clamps cut no feasible bin; (pair) every analytic leaf inverse equals the symbolic inverse of its transform; "
-         "(root) the quadratic solved by the spline inverse is exactly the forward equation (exact polynomial identity); (stable) no cancelling/overflowing exp-log spelling. Does NOT decide round-trip error size or "
+         "(root) the quadratic solved by the spline inverse is exactly the forward equation (exact polynomial identity); (stable) no cancelling/overflowing exp-log spelling; (planar) the leaky-relu planar inverse solves the forward equation and both inverse methods refuse any other activation; (monotone) the numerically inverted network keeps a positive weight-norm row scale. Does NOT decide round-trip error size or "
          "convergence to tolerance (floating-point quantities).", "3 C01 and 8.3"),
  "C02": ("rank abstract domain + exact rational-fragment term identity between sibling methods + symbolic differentiation",
          "Decides: (scalar) the log-det of every X_and_log_det is rank-0 in a rank domain; (neg) ld(inverse_and_log_det)(y) == -ld(transform_and_log_det)(x := inverse(y)) "
          "as a term identity for leaves (exact in the rational fragment), by mirror for delegating classes, at the computed x for MAF/BNAF, with the two named exceptions "
-         "(LeakyTanh y-space predicate, planar skeleton with the constrained u); (mask) value and log-det select their branch with the same predicate; (deriv) for the elementwise leaves, the spline, the triangular affine map, planar and the pure reorderings, the closed-form log-det equals sum log|d transform/dx| of the map actually computed, by symbolic differentiation / exact rational identity. Does NOT decide the numerical equality with the autodiff Jacobian for data-dependent compositions (follows by induction from the clauses above) nor MAF/BNAF/coupling Jacobian structure (C09).", "3 C02 and 8.3"),
+         "(LeakyTanh y-space predicate, planar skeleton with the constrained u); (mask) value and log-det select their branch with the same predicate; (deriv) for the elementwise leaves, the spline, the triangular affine map, planar and the pure reorderings, the closed-form log-det equals sum log|d transform/dx| of the map actually computed, by symbolic differentiation / exact rational identity; (bnaf) the block network's log-det, unrolled for depth 0..3, is the log-space matrix product Lin(d).Diag(d-1)...Diag(0).Lin(0) with each activation log-gradient taken at the pre-activation of the value path (chain rule, non-commutative); (triangular) the last MADE layer is strict for depth 0..3. Does NOT decide the numerical equality with the autodiff Jacobian for data-dependent compositions (follows by induction from the clauses above) nor MAF/BNAF/coupling Jacobian structure (C09).", "3 C02 and 8.3"),
  "C03": ("signed-provenance / reference-term comparison of the three cores + loop-summary rule for merge_transforms",
          "Decides: the three cores of AbstractTransformed equal the change-of-variables wiring (inverse log-det added, forward subtracted, base density at the inverse image, condition to both, key once, one bijection/base pair); "
          "the default joint path; merge_transforms collects one bijection per visited level outermost-first, reverses once, merges on the innermost base; every factory returns Transformed(base, Invert(Scan(L)) if invert else Scan(L)); "
-         "the wrapper bijections the factories return (Invert/Scan/Chain) satisfy value/mirror agreement. Does NOT decide the numerical equalities (they follow given C01/C02 of the children).", "3 C03"),
+         "every bijection class a factory can place on the data path satisfies value/mirror agreement; Chain.merge_chains keeps the order (loop, LIFO-stack and recursive forms); the public log_prob only maps NaN to -inf. Does NOT decide the numerical equalities (they follow given C01/C02 of the children).", "3 C03"),
  "C04": ("interval abstract domain (bounded-image proofs) over bijections on flow data paths + structural tail rules",
          "Decides only the surjectivity-typing clause: no bijection placed on a flow's data path (factory layers, default BNAF activation) has a provably bounded image or domain in the interval domain; spline / LeakyTanh tails are the identity / tangent continuation; planar u-constraint keeps w.u > -1; "
          "sampler and density share one bijection and base and the flow wrapper bijections are mirror-consistent. Does NOT decide that exp(log_prob) integrates to one nor sampler/density goodness of fit (global numerical quantities: not applicable to static analysis).", "3 C04"),
  "C05": ("reference-term comparison + call-site parameter binding + rational-fragment accessor identities",
          "Decides: density and sampler of each standard family name the same family with a full sum over the event shape; constructor arguments reach the bijection parameter of the same role and parameter bijections store broadcast values; accessor(constructor(args)) == args in the rational fragment; "
-         "log_prob maps NaN to -inf after vectorisation; mixture density/sampler/weight-normalisation wiring. Does NOT decide agreement with scipy densities or sampler distributions.", "3 C05"),
+         "log_prob maps NaN to -inf after vectorisation; mixture density/sampler/weight-normalisation wiring; the parameter bijections (SoftPlus ...) use no overflowing / cancelling exp-log spelling. Does NOT decide agreement with scipy densities or sampler distributions.", "3 C05"),
  "C06": ("reference-term comparison of the vectorisers + PRNG-key fan-out dataflow + shape-truthiness lint",
-         "Decides: each public method is the jnp.vectorize lift of its private core with the gufunc signature built from shape/cond_shape and the condition excluded iff cond_shape is None; one key per output element (split(key, prod(sample_shape + condition batch)) reshaped), keys not key passed on; no truthiness test on a shape. "
+         "Decides: each public method is the jnp.vectorize lift of its private core with the gufunc signature built from shape/cond_shape and the condition excluded iff cond_shape is None; one key per output element (split(key, prod(sample_shape + condition batch)) reshaped), keys not key passed on (key shape = sample_shape + condition batch, in this order); the bijection vectoriser's four methods lift the method of the same name; no truthiness test on a shape. "
          "Does NOT decide elementwise numerical equality (delegated to the documented jnp.vectorize contract).", "3 C06"),
  "C07": ("formula conformance: canonical-term equality with reference snippets, exact in the rational fragment",
          "Decides: transform of each elementary bijection equals the documented map; LeakyTanh tangent-line constructor identities; TriangularAffine triangle/solver polarity; Permute forward/inverse index provenance; spline in-bounds branches equal eq. 4/5/6-8 of Durkan et al. with identity tails, located in the right knot table under the interval mask; bin index in range. "
          "Does NOT decide values at concrete inputs or that jnp primitives compute their namesakes.", "3 C07"),
  "C08": ("mirror/definition term comparison + axis-sign abstract domain + loop-summary order rules",
          "Decides: each combinator's transform equals its definition over the children's methods, inverse pair is its mirror, value agreement; a possibly-negative axis is normalised (with the right modulus) before being a tuple slice bound; shape/cond_shape algebra equals the jnp.concatenate/stack/vmap semantics; "
-         "indexing/iteration/merge_chains/merge_transforms preserve order. Does NOT decide equality with a reference interpreter on generated trees.", "3 C08"),
+         "indexing/iteration/merge_chains/merge_transforms preserve order; merge_cond_shapes returns None iff all entries are None (no truthiness on shapes); declared shapes / conditioner sizes of Coupling, MaskedAutoregressive, Planar and the Vmap constructor with its axis helpers equal their documented forms. Does NOT decide equality with a reference interpreter on generated trees.", "3 C08"),
  "C09": ("wrapper zero/sign-pattern domain + constant-propagating partial evaluation over the static configuration grid",
-         "Decides for all weight values: masks live in unwrap-time Where wrappers (not eager products); last MADE layer strict, others non-strict, for depth 0..3 x conditional/unconditional by constant propagation; rank/ mask helper orientation; coupling dependency sets; per-coordinate transformer reconstruction; BNAF block-triangular/positive-diagonal wrapper tree (incl. softplus-positive weight-norm scale) and elementwise activation (depth grid 0..3, thorough 0..8). "
+         "Decides for all weight values: masks live in unwrap-time Where wrappers (not eager products); last MADE layer strict, others non-strict, for depth 0..3 x conditional/unconditional by constant propagation; rank/ mask helper orientation; coupling dependency sets; per-coordinate transformer reconstruction; BNAF block-triangular/positive-diagonal wrapper tree (incl. softplus-positive weight-norm scale) and elementwise activation (depth grid 0..3, thorough 0..8); Where.unwrap selects if_true under cond and stores its fields verbatim (a literal 0 stays a static leaf); BNAF constructor fields for each depth. "
          "Does NOT decide numerical Jacobians or monotonicity of user activations.", "3 C09"),
  "C10": ("finite sign-case evaluation of where-blocks + ranking-function termination argument",
-         "Decides: the bisection while_loop has ranking function max_iter - iterations; for each sign in {-1,0,1} the bracket update keeps the sign invariant and halves the width, sign is exactly sign(func(mid)); adaptation moves the correct end by a doubling step, re-evaluates both new ends, collapses exact hits; driver solves coordinate i at coordinate i in order; the public inverter forwards transform(x)-y, shape[0] and its configured lower/upper/tol/max_iter unchanged. "
+         "Decides: the bisection while_loop has ranking function max_iter - iterations; for each sign in {-1,0,1} the bracket update keeps the sign invariant and halves the width, sign is exactly sign(func(mid)); adaptation moves the correct end by a doubling step, re-evaluates both new ends, collapses exact hits; driver solves coordinate i at coordinate i in order; the public inverter forwards transform(x)-y, shape[0] and its configured lower/upper/tol/max_iter unchanged; parameters a call site passes beyond the recorded signature are analysed as free symbols. "
          "Does NOT decide termination of interval adaptation for a given f nor accuracy at floating-point resolution.", "3 C10"),
  "C11": ("interval abstract domain on unwrap expressions + simplex/floor domain + guard dominance",
-         "Decides for every finite raw value: softplus-reparameterised scales/diagonals/df are > 0, min-scale and min-derivative floors, planar w.u > -1 by the rational identity, weight-norm axis agreement, mixture weights through log_softmax, every spline bin has a positive floor; BijectionReparam stores inverse and applies transform; documented rejections exist, are boundary-inclusive and their result is consumed. "
+         "Decides for every finite raw value: softplus-reparameterised scales/diagonals/df are > 0, min-scale and min-derivative floors, planar w.u > -1 by the rational identity, weight-norm axis agreement, mixture weights through log_softmax, every spline bin has a positive floor; BijectionReparam stores inverse and applies transform; documented rejections exist, are boundary-inclusive and their result is consumed; the conditioner's parameter vector treats NonTrainable nodes as static leaves (the min_scale floor stays a constant). "
          "Does NOT decide float under/overflow at the edge of the stated box.", "3 C11"),
  "C12": ("who-must-call / dominance over the call graph + sibling agreement of the four parameter partitions",
          "Decides: every public entry point unwraps before touching fields; unwrap is recursive and wrapper-free; vectorised unwrap maps every array leaf; wrappers without vectorised unwrap address trailing axes only; NonTrainable applies stop_gradient; the four trainable-parameter partitions agree on filter and is_leaf and recombine with the same static. "
          "Does NOT decide bit-identity after an actual run or equinox's vmapped-construction semantics.", "3 C12"),
  "C13": ("class-table coverage of the installation hook + exact-comparison and who-must-call rules",
-         "Decides: the hook wraps exactly the abstract interface methods and every concrete class obtains each of the four from a class body (112 obligations); installed checks compare whole shape tuples exactly with `is not None` tests (no truthiness on shapes), failing branches raise, checked values are forwarded; constructors call their validators and validators raise on the documented predicate with tuple (non-broadcasting) comparisons. "
+         "Decides: the hook wraps exactly the abstract interface methods and every concrete class obtains each of the four from a class body (112 obligations); installed checks compare whole shape tuples exactly with `is not None` tests (no truthiness on shapes), failing branches raise, checked values are forwarded; constructors call their validators and validators raise on the documented predicate with tuple (non-broadcasting) comparisons - compared as raise-sets (propositionally exact over the atomic tests) when the guards are spelled differently; validators are called on the children's shapes / condition shapes respectively. "
          "Does NOT decide the exact shape of every successful return through arbitrary children.", "3 C13"),
  "C14": ("traced-value taint analysis over the call graph + static-field and effect lint",
-         "Decides: no Python control flow / bool()/int()/float() / numpy / math call on a traced value in any bijection/distribution method, unwrap or the bisection search (~120 functions); no array in a static field; no hidden state or foreign randomness. "
+         "Decides: no Python control flow / bool()/int()/float() / numpy / math call on a traced value in any bijection/distribution method, unwrap or the bisection search (~120 functions); no array in a static field; no array bound into a closure or functools.partial stored in a model; no hidden state or foreign randomness; helper-function parameters are traced iff a call site passes a traced value. "
          "Does NOT decide numerical equality of jitted and eager results nor equinox's serialisation.", "3 C14"),
  "C15": ("reaching-definition dataflow on a hand-built CFG + train/val taint + PRNG-key typestate",
          "Decides: co-permutation with one key and complementary slices of one bound (partition); per-epoch shuffles with fresh keys rebuilt only from themselves; prefix batching with one batch size and strict zip; no validation-derived value reaches step; every per-batch step/loss call gets a key that changes with the iteration; caller/callee argument order. "
@@ -74,7 +74,7 @@ T = {
          "Decides: each loss's __call__ equals its defining estimator (sign, reduction, forwarded arguments, unwrap / stop_gradient placement, per-sample target, key and sample shape shared by both ELBO branches), contrastive indices drawn without replacement from all other rows with one key per row, no log(softmax) normalisation. "
          "Does NOT decide numerical agreement with a NumPy reference nor the STL gradient identity beyond stop_gradient placement.", "3 C17"),
  "C18": ("where-discipline dataflow (sanitised operands of singular primitives) + safe-constant membership + bin range",
-         "Decides: every singular primitive inside a where-branch of a bijection/distribution method takes an operand sanitised by the same mask; the sanitising constant lies in the consumer's safe set; spline bin index in range; log_prob maps NaN to -inf; BNAF log-space accumulation shape. "
+         "Decides: every singular primitive inside a where-branch of a bijection/distribution method takes an operand sanitised by the same mask; the sanitising constant lies in the consumer's safe set; spline bin index in range; log_prob maps NaN to -inf; BNAF log-space accumulation shape; no division by exp/cosh/sinh/expm1 of an unbounded function of the input (NaN gradient at overflow). "
          "Does NOT decide finiteness at large magnitudes through total primitives nor gradients through user-supplied transformers.", "3 C18"),
 }
 
